@@ -606,3 +606,76 @@ def cases():  # noqa: F811
     cs.append(CallRun())
     cs.append(FrontEnds())
     return cs
+
+
+class QcConfigRun(Case):
+    """config.QcConfig.run(inp=..., tinp=..., zinp=...): a bare test mapping on one series; the dict
+    result holds, for every configured runnable test, the probe's flags for all rows"""
+
+    module = "ioos_qc.config"
+    function = "QcConfig.run"
+    index_offsets = (0,)
+    default_props = {}
+    props = {"post.flags_of_direct_call_on_all_rows": ("C05",), "no-raise": ("C05", "C18")}
+
+    def declare(self, mk):
+        e = Env()
+        e.mode = mk.mode
+        e.n = mk.length("n")
+        e.v = mk.series("v", e.n)
+        e.t = mk.times_ns("t", e.n, min_step_ns=None)
+        e.z = mk.series("z", e.n)
+        return e
+
+    def grid(self, tier, rng):
+        return []
+
+    def canary(self, e, res, k):
+        return None
+
+    def call(self, mod, e):
+        install_probes()
+        del LOG[:]
+        import warnings
+
+        with warnings.catch_warnings():
+            warnings.simplefilter("ignore")
+            qc = mod.QcConfig({"pyvc_probe": {"probe_beta": {"r": 2}, "probe_boom": {}, "no_such_test": {}}})
+            return (qc.run(inp=e.v, tinp=e.t, zinp=e.z), list(LOG))
+
+    def post_global(self, e, res):
+        out, log = res.value
+        k = z3.Int("k!row")
+        cur().index_seeds.append(k)
+        inr = alg.and_(alg.le(0, k), alg.lt(k, e.n))
+        try:
+            a = out["pyvc_probe"]["probe_beta"]
+        except (KeyError, TypeError):
+            return {"flags_of_direct_call_on_all_rows": False}
+        ok = [set(out.keys()) == {"pyvc_probe"}, set(out["pyvc_probe"].keys()) == {"probe_beta"}, isinstance(a, Arr)]
+        if not all(ok):
+            return {"flags_of_direct_call_on_all_rows": False}
+        kw = [l_[1] for l_ in log if l_[0] == "beta"]
+        args_ok = []
+        if len(kw) == 1:
+            for an, col in (("inp", e.v), ("tinp", e.t)):
+                arg = kw[0][an]
+                if hasattr(arg, "arr") and isinstance(getattr(arg, "arr", None), Selection):
+                    arg = arg.arr
+                if isinstance(arg, Selection):
+                    args_ok.append(alg.implies(inr, alg.and_(arg.sel(k)[1], alg.eq(arg.base_elem(k)[1], col.val(k)))))
+                elif isinstance(arg, Arr):
+                    args_ok.append(alg.implies(inr, alg.eq(arg.val(k), col.val(k))))
+                else:
+                    args_ok.append(False)
+            args_ok.append(kw[0]["r"] == 2)
+        else:
+            args_ok.append(False)
+        return {"flags_of_direct_call_on_all_rows": alg.and_(alg.eq(a.n, e.n), alg.implies(inr, alg.eq(a.val(k), FL["beta"](k))), *args_ok)}
+
+
+_cases_streams = cases
+
+
+def cases():  # noqa: F811
+    return _cases_streams() + [QcConfigRun()]
